@@ -160,9 +160,17 @@ Outcome(c, op) ==
          Res(truth, [cores EXCEPT ![c].subs = 0], [t |-> "ok"], <<>>)
     [] op.o = "sub" ->
          Res(truth, [cores EXCEPT ![c].subs = me.subs + 1], [t |-> "ok"], <<>>)
+    \* C03: answering a peer's request changes nothing; a requested block that is not held
+    \* (cleared) yields no proof rather than a wrong one, and the attempt to read it is announced
+    [] op.o = "mkproof" ->
+         IF op.blk >= 0 /\ ~CHas(c, op.blk)
+         THEN Same([t |-> "none"], <<EvGet(op.blk, "")>>)
+         ELSE Same([t |-> "proof"], <<>>)
     \* a replica learns that the signed log has (at least) `len` blocks and/or fetches block i
     [] op.o = "proof" ->
-         LET nl == IF op.up > me.len THEN op.up ELSE me.len
+         \* an upgrade carries the writer's latest signature (plus the additional nodes up to its
+         \* head), so whatever range was asked for the replica ends at the writer's current length
+         LET nl == IF op.hasup THEN RLen(Log(c)) ELSE me.len
              ok == /\ nl <= RLen(Log(c))
                    /\ (op.blk >= 0 => op.blk < nl)
              nh == IF op.blk >= 0 THEN IvAdd(me.held, op.blk, op.blk + 1) ELSE me.held IN
